@@ -802,67 +802,8 @@ func storedSilenceImmutableRule(o *Ob) {
 		"am/silence.validateSilence":                "normalises the request object before it is stored",
 		"(am/silence.state).merge":                  "upgrades the incoming entry (legacy comments) before it is stored; the stored entry is only replaced, never written",
 	}
-	var classify func(fn *ssa.Function, v ssa.Value, seen map[ssa.Value]bool) string
-	classify = func(fn *ssa.Function, v ssa.Value, seen map[ssa.Value]bool) string {
-		if seen[v] {
-			return ""
-		}
-		seen[v] = true
-		switch x := v.(type) {
-		case *ssa.Alloc:
-			return ""
-		case *ssa.Parameter:
-			if _, ok := ownParam[fnName(fn)]; ok {
-				return ""
-			}
-			return "its parameter " + x.Name()
-		case *ssa.UnOp:
-			if x.Op == token.MUL {
-				// the variable's cell (a local, possibly captured): everything it is ever given
-				if cell := cellOf(x.X); cell != nil {
-					n := 0
-					for _, r := range *cell.Referrers() {
-						if st, ok := r.(*ssa.Store); ok && st.Addr == ssa.Value(cell) {
-							n++
-							if why := classify(fn, st.Val, seen); why != "" {
-								return why
-							}
-						}
-					}
-					if n > 0 {
-						return ""
-					}
-				}
-				// the silence inside a mesh silence: as good as the mesh silence
-				if fa, ok := x.X.(*ssa.FieldAddr); ok && typeKey(fa.X.Type()) == "am/silence/silencepb.MeshSilence" {
-					return classify(fn, fa.X, seen)
-				}
-			}
-		case *ssa.Extract:
-			return classify(fn, x.Tuple, seen)
-		case *ssa.Next:
-			return classify(fn, x.Iter, seen)
-		case *ssa.Range:
-			return classify(fn, x.X, seen)
-		case *ssa.Phi:
-			for _, ed := range x.Edges {
-				if why := classify(fn, ed, seen); why != "" {
-					return why
-				}
-			}
-			return ""
-		case *ssa.TypeAssert:
-			return classify(fn, x.X, seen)
-		case *ssa.ChangeType:
-			return classify(fn, x.X, seen)
-		case *ssa.Call:
-			switch calleeName(&x.Call) {
-			case "am/silence.cloneSilence", "proto.Clone", "am/silence.decodeState":
-				return "" // a copy, or entries decoded for this caller
-
-			}
-		}
-		return clip(e.X(fn, v))
+	classify := func(fn *ssa.Function, v ssa.Value, seen map[ssa.Value]bool) string {
+		return ownedValue(e, fn, v, seen, ownParam, []string{"am/silence.cloneSilence", "proto.Clone", "am/silence.decodeState"}, "am/silence/silencepb.MeshSilence")
 	}
 	n := 0
 	for _, T := range []string{"Silence", "MeshSilence"} {
